@@ -200,6 +200,13 @@ def check_string(rec):
         srcs.append((f".word '{s}\n", struct.pack("<H", rec["word"])))
     if len(s) == 2:
         srcs.append((f'.word "{s}\n', struct.pack("<H", rec["word"])))
+        # the literal taken apart: a word is an unsigned quantity whatever the second character's byte is
+        srcs.append((f'.word "{s} / 400\n', struct.pack("<H", rec["hi"])))
+        srcs.append((f'.byte "{s} >> 10\n', struct.pack("<B", rec["hi"])))
+    if not rec["ok"]:
+        # a warning reported AFTER the refusal does not make the build succeed
+        srcs.append((f'.ascii "{s}"\n\t.list\n', want))
+        srcs.append((f'\t.byte\n.ascii "{s}"\n.byte\n', want))
     # every source is assembled twice in this process: the refusal of a character is a fact about the character, not about the
     # first time it is met
     for src, w in [x for x in srcs for _ in (0, 1)]:
